@@ -311,7 +311,8 @@ func catalogue() []catProgram {
 		{name: "strings", prog: catalogueStrings(), vtic: true},
 		{name: "fixed", prog: catalogueFixed(), vtic: true},
 		{name: "samepkg", prog: catalogueSamePkg()},
-		{name: "clash", prog: catalogueClash(), vtic: true},
+		{name: "clash", prog: catalogueClash(false), vtic: true},
+		{name: "clash_all", prog: catalogueClash(true)},
 		{name: "comments", prog: catalogueComments()},
 		{name: "ways", prog: catalogueWays()},
 	}
